@@ -215,3 +215,16 @@ mutant("c09-romberg-midpoints", "C09", "R9.4", (IM, "N::from_f64(k as f64 - 0.5)
 mutant("c09-stop-rule", "C09", "R9.5/integrate::gaussian::integrate_laguerre", (GA, "        let err = (area - prev_area).abs();\n        if err < tol && prev_err < tol {\n            return Ok(area);\n        }\n\n        prev_area = area;\n        prev_err = err;\n    }\n\n    Err(\"integrate_laguerre", "        let err = (area - prev_area).abs();\n        if err < tol {\n            return Ok(area);\n        }\n\n        prev_area = area;\n        prev_err = err;\n    }\n\n    Err(\"integrate_laguerre"))
 mutant("c09-tol-guard", "C09", "R9.1/integrate::integrate_simpson/guard:tol", (IM, "    if !tol.is_sign_positive() {\n        return Err(\"integrate: tolerance must be positive\".to_owned());\n    }\n\n    let sixth", "    let sixth"))
 benign("c09-simpson-refactor", "C09", (IM, "        let s1 = N::from_real(step_i[i - 1]) * (f_ai[i - 1] + four * f_d + f_ci[i - 1]) * sixth;", "        let s1 = (f_ai[i - 1] + f_ci[i - 1] + four * f_d) * N::from_real(step_i[i - 1]) * sixth;"))
+
+# ---- C14
+mutant("c14-linear-sign", "C14", "R14.1/Polynomial::roots/linear", (PM, "let division = -self.coefficients[0] / self.coefficients[1];", "let division = self.coefficients[0] / self.coefficients[1];"))
+mutant("c14-quadratic-4ac", "C14", "R14.1/Polynomial::roots/quadratic", (PM, "- N::from_f64(4.0).unwrap() * self.coefficients[2] * self.coefficients[0];", "- N::from_f64(2.0).unwrap() * self.coefficients[2] * self.coefficients[0];"))
+mutant("c14-recursion-on-original", "C14", "R14.", (PM, "let mut roots = quotient.roots(tol, n_max)?;", "let mut roots = complex.derivative().roots(tol, n_max)?;"))
+mutant("c14-polish-on-quotient", "C14", "R14.3/Polynomial::roots/polish-on-original", (PM, "corrected_roots.push_back(newton_polynomial(*root, &complex, tol, n_max)?);", "corrected_roots.push_back(newton_polynomial(*root, &quotient, tol, n_max)?);"))
+mutant("c14-lost-root", "C14", "R14.2/Polynomial::roots/count", (PM, "        roots.push_front(guess);\n", ""))
+mutant("c14-divisor-sign", "C14", "R14.3/Polynomial::roots/divisor", (PM, "let divisor = polynomial![Complex::<N::RealField>::one(), -guess];", "let divisor = polynomial![Complex::<N::RealField>::one(), guess];"))
+mutant("c14-cap", "C14", "R14.4/Polynomial::roots/iteration-cap", (PM, "        if k == n_max {\n            return Err(\"Polynomial roots: maximum iterations exceeded\".to_owned());\n        }\n", ""))
+mutant("c14-laguerre-base", "C14", "R14.5/special::polynomial::laguerre_zeros/base-case", (SP, "    if n == 1 {\n        return Ok(vec![N::one()]);\n    }\n\n    let poly: Polynomial<N> = laguerre(n, poly_tol)?;", "    if n == 1 {\n        return Ok(vec![N::zero()]);\n    }\n\n    let poly: Polynomial<N> = laguerre(n, poly_tol)?;"))
+mutant("c14-hermite-deflator", "C14", "R14.5/special::polynomial::hermite_zeros/deflate-then-polish", (SP, "        deflator = quotient;\n", ""))
+mutant("c14-hermite-polish", "C14", "R14.5/special::polynomial::hermite_zeros/deflate-then-polish", (SP, "let zero = newton_polynomial(zero, &poly, tol, n_max)?;", "let zero = newton_polynomial(zero, &deflator, tol, n_max)?;"))
+benign("c14-refactor", "C14", (PM, "let division = -self.coefficients[0] / self.coefficients[1];", "let division = -(self.coefficients[0] / self.coefficients[1]);"))
